@@ -143,6 +143,13 @@ func RunOnce(chk FullCheck, sc *Scenario, tag string, replay bool) (*Violation, 
 	if err != nil {
 		var we *WedgeError
 		var be *BootError
+		var he *HungError
+		if errors.As(err, &he) {
+			// One request never completed while the server kept serving others:
+			// no listed property speaks about that; the run ends without a verdict.
+			st.Probe("run-ended-by-hung-request")
+			return nil, st, w, nil
+		}
 		if errors.As(err, &be) {
 			prop := "C03"
 			if be.AfterCrash {
@@ -156,7 +163,7 @@ func RunOnce(chk FullCheck, sc *Scenario, tag string, replay bool) (*Violation, 
 			}
 		} else if errors.As(err, &we) {
 			// a wedge during a well-formed workload: the server stopped serving
-			v = &Violation{Prop: "C20", Oracle: "wedged", Sig: "wedged:" + firstWords(we.What, 2), Detail: "server wedged: " + we.What + "\n" + trimStacks(we.Stacks)}
+			v = &Violation{Prop: "C20", Oracle: "wedged", Sig: "wedged:" + firstWords(we.What, 2), Detail: "server wedged: " + we.What + "\n" + we.Stacks}
 			err = nil
 		} else if errors.Is(err, ErrChildDied) && !chk.ExpectsDeath(sc) {
 			d := strings.Join(st.ChildDeaths, "\n")
@@ -315,6 +322,8 @@ func RunTier(chk FullCheck, tier string, seed uint64) int {
 	}
 	var violations []found
 	knownSeen := map[string]int{}
+	collect := os.Getenv("VERIF_COLLECT") != ""
+	collected := map[string]int{}
 	deadline := t0.Add(wall)
 
 	var wg sync.WaitGroup
@@ -360,6 +369,12 @@ func RunTier(chk FullCheck, tier string, seed uint64) int {
 				if v != nil {
 					if k := matchKnown(known, v); k != nil {
 						knownSeen[k.Property+" "+k.Signature+" :: "+k.What]++
+					} else if collect {
+						if collected[v.Sig] == 0 {
+							os.WriteFile(fmt.Sprintf("/tmp/collect-%s-%d.txt", chk.ID(), idx), []byte(v.String()), 0644)
+							fmt.Printf("COLLECT run=%d %s\n", idx, indent(v.String(), "    "))
+						}
+						collected[v.Sig]++
 					} else {
 						violations = append(violations, found{sc, v})
 						stop.Store(true)
@@ -385,6 +400,9 @@ func RunTier(chk FullCheck, tier string, seed uint64) int {
 		replayPaths = append(replayPaths, path)
 		vioOut = append(vioOut, v)
 		exit = 1
+	}
+	for sig, n := range collected {
+		fmt.Printf("COLLECTED %d x %s\n", n, sig)
 	}
 	var kf []string
 	for k, n := range knownSeen {
